@@ -45,6 +45,9 @@ def stage_ops(r, cfg, kind, name, time_in=True, shared_method=None):
     for k in ("T", "t0"):
         if k in head:
             first[k] = head[k]
+    # rockit's defaults (t0=0, T=1) may also be left implicit
+    if first.get("t0") == ["num", 0] and r.random() < 0.6:
+        first.pop("t0")
     out = [first]
     for op in ops[1:]:
         if op["op"] in ("solver", "callback"):
@@ -470,13 +473,9 @@ class World12:
         if any(r.get("nx_created") != r["nx"] for r in alone + [rec]):
             self.probe("union_incomparable_active_sets")
             return
-        if n_root_x > root_vars:
-            # Opti drops unused variables: a stage variable used only through the parent is active in the whole only
-            self.probe("union_incomparable_active_sets")
-            return
         if n_root_x != root_vars:
-            self.probe("union_incomparable_active_sets")
-            return
+            # no variable was dropped anywhere (checked above), so the parent contributes exactly its own variables
+            raise Violation("union:size", "the parent contributes %d decision variables to the multi-stage NLP but declares %d" % (n_root_x, root_vars))
         # bounds of stage rows: the parent's rows come first
         lb = np.concatenate([r["lbg"] for r in alone]) if alone else np.zeros(0)
         ub = np.concatenate([r["ubg"] for r in alone]) if alone else np.zeros(0)
@@ -539,7 +538,13 @@ def gen_run(r, w, steps, emit, restarts=False):
     swarm = {"time_in_template": r.random() < 0.5, "n_templates": r.choice([0, 1, 1, 2]), "n_direct": r.choice([0, 1, 1, 2]),
              "n_clones": r.choice([1, 1, 2, 3]), "nsteps": r.randint(2, 24 if deep else 10), "p_fault": r.choice([0, 0.2]),
              "parent_var": r.random() < 0.5}
-    emit({"op": "new_ocp"})
+    root = {"op": "new_ocp"}
+    if r.random() < 0.25:
+        # a parent without dynamics may carry a horizon of its own; it means nothing for the NLP
+        root["T"] = G.pick(r, [["num", G.positive_value(r)], ["free", G.positive_value(r)]])
+    if r.random() < 0.15:
+        root["t0"] = G.pick(r, [["num", G.rnum(r, -1, 1)], ["free", G.rnum(r, -1, 1)]])
+    emit(root)
     if swarm["parent_var"]:
         emit({"op": "sym", "name": "vP", "kind": "variable"})
     swarm["parent_par"] = r.random() < 0.4
